@@ -75,8 +75,46 @@ ROUTINES = {
 }
 
 
+# ---- exact mode switch (harness/exact.py) ---------------------------------
+# EXACT is False except while exact.call() runs one routine in exact mode.  With
+# EXACT False the three helpers below are what the adapters always were:
+#   arr(l) = np.array(fl(l), dtype=float),  num(x) = float(x),  lst(l) = fl(l)
+# With EXACT True they hand the library exact numbers (exact.Ex) instead.
+EXACT = False
+
+
 def arr(l):
+    if EXACT:
+        import exact
+        return exact.lift(list(l))          # object array of Ex built from the Fractions
     return np.array(fl(l), dtype=float)
+
+
+def num(x):
+    """a scalar argument (t_start, t_end, MRTS, max_tau, interval end, threshold)"""
+    if EXACT:
+        import exact
+        return exact.Ex(x)
+    return float(x)
+
+
+def lst(l):
+    """a plain Python list of numbers"""
+    if EXACT:
+        import exact
+        return [exact.Ex(x) for x in l]
+    return fl(l)
+
+
+def edge(x):
+    """an edge of a SpikeTrain: the library converts it with float(), so exact
+    mode is only possible if the value is a binary64 number"""
+    if EXACT:
+        import exact
+        if not exact.representable(x):
+            raise exact.NotExact("edge %s is not a binary64 number" % (x,))
+    return float(x)
+# ---- end of exact mode switch ----------------------------------------------
 
 
 class Impl(object):
@@ -93,22 +131,22 @@ class Impl(object):
     # -- helpers
     def train(self, t):
         s, ts, te = t
-        return self.ps.SpikeTrain(arr(s), [float(ts), float(te)])
+        return self.ps.SpikeTrain(arr(s), [edge(ts), edge(te)])
 
     def trains(self, l):
         return [self.train(t) for t in l]
 
     @staticmethod
     def iv(iv):
-        return None if iv is None else (float(iv[0]), float(iv[1]))
+        return None if iv is None else (num(iv[0]), num(iv[1]))
 
     @staticmethod
     def ivspec(iv):
         if iv is None:
             return None
         if len(iv) == 2 and not isinstance(iv[0], (list, tuple)):
-            return (float(iv[0]), float(iv[1]))
-        return [(float(a), float(b)) for a, b in iv]
+            return (num(iv[0]), num(iv[1]))
+        return [(num(a), num(b)) for a, b in iv]
 
     @staticmethod
     def idx(ix):
@@ -120,7 +158,7 @@ class Impl(object):
         if not rc:
             kw["Reconcile"] = False
         if m is not None and m != 0:
-            kw["MRTS"] = float(m)       # MRTS = 0 is the default: leave the keyword out (explicit 0 is C15's business)
+            kw["MRTS"] = num(m)       # MRTS = 0 is the default: leave the keyword out (explicit 0 is C15's business)
         if ri is not None:
             kw["RI"] = bool(ri)
         return kw
@@ -131,74 +169,74 @@ class Impl(object):
     # -- L1 kernels
     def r1(self, s1, s2, ts, te, m):
         f = self.mods["cython_profiles"].isi_profile_cython if self.cy else self.pb.isi_distance_python
-        return f(arr(s1), arr(s2), float(ts), float(te), float(m))
+        return f(arr(s1), arr(s2), num(ts), num(te), num(m))
 
     def r2(self, s1, s2, ts, te, m, ri):
         f = self.mods["cython_profiles"].spike_profile_cython if self.cy else self.pb.spike_distance_python
-        return f(arr(s1), arr(s2), float(ts), float(te), float(m), bool(ri))
+        return f(arr(s1), arr(s2), num(ts), num(te), num(m), bool(ri))
 
     def r3(self, x, l, a0, a1):
-        return self.pb.get_min_dist(float(x), arr(l), 0, float(a0), float(a1))
+        return self.pb.get_min_dist(num(x), arr(l), 0, num(a0), num(a1))
 
     def r4(self, i1, i2, s1, s2, m, ri):
-        return self.pb.dist_at_t(float(i1), float(i2), float(s1), float(s2), float(m), bool(ri))
+        return self.pb.dist_at_t(num(i1), num(i2), num(s1), num(s2), num(m), bool(ri))
 
     def r5(self, c1, c2, lim, m):
         # rebuild arrays and indices from the two contexts
         def mk(c):
             if c is None:
-                return np.array([5.0, 6.0]), -1     # any train; index -1
+                return arr([5, 6]), -1              # any train; index -1
             p, x, n = c
             a = []
             if p is not None:
-                a.append(float(p))
+                a.append(num(p))
             i = len(a)
-            a.append(float(x))
+            a.append(num(x))
             if n is not None:
-                a.append(float(n))
-            return np.array(a), i
+                a.append(num(n))
+            return (arr(a) if EXACT else np.array(a)), i
         a1, i = mk(c1)
         a2, j = mk(c2)
         f = self.mods["cython_get_tau"].get_tau if self.cy else self.pb.get_tau
-        return f(a1, a2, i, j, float(lim), float(m))
+        return f(a1, a2, i, j, num(lim), num(m))
 
     def r6(self, s1, s2, ts, te, mt, m):
         f = self.mods["cython_profiles"].coincidence_profile_cython if self.cy else self.pb.coincidence_python
-        return f(arr(s1), arr(s2), float(ts), float(te), float(mt), float(m))
+        return f(arr(s1), arr(s2), num(ts), num(te), num(mt), num(m))
 
     def r7(self, s1, s2, ts, te, mt, m):
         f = self.mods["cython_profiles"].coincidence_single_profile_cython if self.cy \
             else self.pb.coincidence_single_python
-        return f(arr(s1), arr(s2), float(ts), float(te), float(mt), float(m))
+        return f(arr(s1), arr(s2), num(ts), num(te), num(mt), num(m))
 
     def r8(self, s1, s2, ts, te, mt, m):
         f = self.mods["cython_directionality"].spike_train_order_profile_cython if self.cy \
             else self.dpb.spike_train_order_profile_python
-        return f(arr(s1), arr(s2), float(ts), float(te), float(mt), float(m))
+        return f(arr(s1), arr(s2), num(ts), num(te), num(mt), num(m))
 
     def r9(self, s1, s2, ts, te, mt, m):
         f = self.mods["cython_directionality"].spike_directionality_profiles_cython if self.cy \
             else self.dpb.spike_directionality_profile_python
-        return f(arr(s1), arr(s2), float(ts), float(te), float(mt), float(m))
+        return f(arr(s1), arr(s2), num(ts), num(te), num(mt), num(m))
 
     def r10(self, s1, s2, ts, te, m):
-        return self.mods["cython_distances"].isi_distance_cython(arr(s1), arr(s2), float(ts), float(te), float(m))
+        return self.mods["cython_distances"].isi_distance_cython(arr(s1), arr(s2), num(ts), num(te), num(m))
 
     def r11(self, s1, s2, ts, te, m, ri):
-        return self.mods["cython_distances"].spike_distance_cython(arr(s1), arr(s2), float(ts), float(te),
-                                                                   float(m), bool(ri))
+        return self.mods["cython_distances"].spike_distance_cython(arr(s1), arr(s2), num(ts), num(te),
+                                                                   num(m), bool(ri))
 
     def r12(self, s1, s2, ts, te, mt, m):
-        return self.mods["cython_distances"].coincidence_value_cython(arr(s1), arr(s2), float(ts), float(te),
-                                                                      float(mt), float(m))
+        return self.mods["cython_distances"].coincidence_value_cython(arr(s1), arr(s2), num(ts), num(te),
+                                                                      num(mt), num(m))
 
     def r13(self, s1, s2, ts, te, mt, m):
-        return self.mods["cython_directionality"].spike_train_order_cython(arr(s1), arr(s2), float(ts),
-                                                                           float(te), float(mt), float(m))
+        return self.mods["cython_directionality"].spike_train_order_cython(arr(s1), arr(s2), num(ts),
+                                                                           num(te), num(mt), num(m))
 
     def r14(self, s1, s2, ts, te, mt, m):
-        return self.mods["cython_directionality"].spike_directionality_cython(arr(s1), arr(s2), float(ts),
-                                                                              float(te), float(mt), float(m))
+        return self.mods["cython_directionality"].spike_directionality_cython(arr(s1), arr(s2), num(ts),
+                                                                              num(te), num(mt), num(m))
 
     # -- L2: the class methods (add goes through the class so that the
     #    backend import inside .add() is exercised)
@@ -227,10 +265,10 @@ class Impl(object):
         return self.ps.PieceWiseConstFunc(arr(x), arr(y)).integral(self.iv(iv))
 
     def r25(self, x, y, t):
-        return self.ps.PieceWiseConstFunc(arr(x), arr(y))(float(t))
+        return self.ps.PieceWiseConstFunc(arr(x), arr(y))(num(t))
 
     def r26(self, x, y, t):
-        return self.ps.PieceWiseConstFunc(arr(x), arr(y))([float(t)])[0]
+        return self.ps.PieceWiseConstFunc(arr(x), arr(y))([num(t)])[0]
 
     def r27(self, x, y):
         return self.ps.PieceWiseConstFunc(arr(x), arr(y)).get_plottable_data()
@@ -242,10 +280,10 @@ class Impl(object):
         return self._quiet(lambda: self.ps.PieceWiseLinFunc(arr(x), arr(y1), arr(y2)).integral(self.iv(iv)))
 
     def r30(self, x, y1, y2, t):
-        return self.ps.PieceWiseLinFunc(arr(x), arr(y1), arr(y2))(float(t))
+        return self.ps.PieceWiseLinFunc(arr(x), arr(y1), arr(y2))(num(t))
 
     def r31(self, x, y1, y2, t):
-        return self.ps.PieceWiseLinFunc(arr(x), arr(y1), arr(y2))([float(t)])[0]
+        return self.ps.PieceWiseLinFunc(arr(x), arr(y1), arr(y2))([num(t)])[0]
 
     def r32(self, x, y1, y2):
         return self.ps.PieceWiseLinFunc(arr(x), arr(y1), arr(y2)).get_plottable_data()
@@ -269,6 +307,9 @@ class Impl(object):
 
     # -- L3 helpers
     def r40(self, l):
+        if EXACT:
+            import exact
+            return exact.SHIM.unique(arr(l))
         return np.unique(arr(l))
 
     def r41(self, l):
@@ -277,7 +318,7 @@ class Impl(object):
 
     def r42(self, s, ts, te):
         from pyspike.isi_lengths import isi_lengths
-        return list(isi_lengths(fl(s), float(ts), float(te)))
+        return list(isi_lengths(lst(s), num(ts), num(te)))
 
     def r43(self, l):
         from pyspike.isi_lengths import default_thresh
@@ -292,10 +333,10 @@ class Impl(object):
         return self.ps.spike_profile(self.train(a), self.train(b), **self.kw(rc, m, ri))
 
     def r52(self, rc, mt, m, a, b):
-        return self.ps.spike_sync_profile(self.train(a), self.train(b), max_tau=float(mt), **self.kw(rc, m))
+        return self.ps.spike_sync_profile(self.train(a), self.train(b), max_tau=num(mt), **self.kw(rc, m))
 
     def r53(self, rc, mt, m, a, b):
-        return self.ps.spike_train_order_profile(self.train(a), self.train(b), max_tau=float(mt),
+        return self.ps.spike_train_order_profile(self.train(a), self.train(b), max_tau=num(mt),
                                                  **self.kw(rc, m))
 
     def r54(self, rc, m, iv, a, b):
@@ -306,7 +347,7 @@ class Impl(object):
                                                           **self.kw(rc, m, ri)))
 
     def r56(self, rc, mt, m, iv, a, b):
-        return self.ps.spike_sync(self.train(a), self.train(b), interval=self.iv(iv), max_tau=float(mt),
+        return self.ps.spike_sync(self.train(a), self.train(b), interval=self.iv(iv), max_tau=num(mt),
                                   **self.kw(rc, m))
 
     def r60(self, rc, m, l, ix):
@@ -316,11 +357,11 @@ class Impl(object):
         return self.ps.spike_profile(self.trains(l), indices=self.idx(ix), **self.kw(rc, m, ri))
 
     def r62(self, rc, mt, m, l, ix):
-        return self.ps.spike_sync_profile(self.trains(l), indices=self.idx(ix), max_tau=float(mt),
+        return self.ps.spike_sync_profile(self.trains(l), indices=self.idx(ix), max_tau=num(mt),
                                           **self.kw(rc, m))
 
     def r63(self, rc, mt, m, l, ix):
-        return self.ps.spike_train_order_profile(self.trains(l), indices=self.idx(ix), max_tau=float(mt),
+        return self.ps.spike_train_order_profile(self.trains(l), indices=self.idx(ix), max_tau=num(mt),
                                                  **self.kw(rc, m))
 
     def r64(self, rc, m, iv, l, ix):
@@ -333,7 +374,7 @@ class Impl(object):
 
     def r66(self, rc, mt, m, iv, l, ix):
         return self.ps.spike_sync(self.trains(l), indices=self.idx(ix), interval=self.iv(iv),
-                                  max_tau=float(mt), **self.kw(rc, m))
+                                  max_tau=num(mt), **self.kw(rc, m))
 
     def r67(self, rc, m, iv, l, ix):
         return self.ps.isi_distance_matrix(self.trains(l), indices=self.idx(ix), interval=self.iv(iv),
@@ -345,32 +386,32 @@ class Impl(object):
 
     def r69(self, rc, mt, m, iv, l, ix):
         return self.ps.spike_sync_matrix(self.trains(l), indices=self.idx(ix), interval=self.iv(iv),
-                                         max_tau=float(mt), **self.kw(rc, m))
+                                         max_tau=num(mt), **self.kw(rc, m))
 
     def r70(self, rc, mt, m, thr, l):
-        kept, removed = self.ps.filter_by_spike_sync(self.trains(l), float(thr), max_tau=float(mt),
+        kept, removed = self.ps.filter_by_spike_sync(self.trains(l), num(thr), max_tau=num(mt),
                                                      return_removed_spikes=True, **self.kw(rc, m))
         return [[k, r] for k, r in zip(kept, removed)]
 
     def r71(self, rc, nrm, mt, m, a, b):
         return self.ps.spike_train_order(self.train(a), self.train(b), normalize=bool(nrm),
-                                         max_tau=float(mt), **self.kw(rc, m))
+                                         max_tau=num(mt), **self.kw(rc, m))
 
     def r72(self, rc, nrm, mt, m, l, ix):
         return self.ps.spike_train_order(self.trains(l), indices=self.idx(ix), normalize=bool(nrm),
-                                         max_tau=float(mt), **self.kw(rc, m))
+                                         max_tau=num(mt), **self.kw(rc, m))
 
     def r73(self, rc, mt, m, l, ix):
         return self.ps.spike_directionality_values(self.trains(l), indices=self.idx(ix),
-                                                   max_tau=float(mt), **self.kw(rc, m))
+                                                   max_tau=num(mt), **self.kw(rc, m))
 
     def r74(self, rc, nrm, mt, m, a, b):
         return self.ps.spike_directionality(self.train(a), self.train(b), normalize=bool(nrm),
-                                            max_tau=float(mt), **self.kw(rc, m))
+                                            max_tau=num(mt), **self.kw(rc, m))
 
     def r75(self, rc, nrm, mt, m, l, ix):
         return self.ps.spike_directionality_matrix(self.trains(l), normalize=bool(nrm),
-                                                   indices=self.idx(ix), max_tau=float(mt),
+                                                   indices=self.idx(ix), max_tau=num(mt),
                                                    **self.kw(rc, m))
 
     # -- L4
